@@ -42,6 +42,13 @@ type Tracker struct {
 	flushed int // index acked when the last Flush returned
 
 	fmvLo, fmvHi int // recovered format major version must lie in [fmvLo, fmvHi]
+
+	// noWAL: the store runs with DisableWAL. An ingest or excise that overlaps
+	// the memtable is then queued as a flushable WITHOUT any log record and is
+	// lost by a crash, while a later ingest that overlaps nothing in the queue
+	// goes straight into the LSM (MANIFEST) and survives: any subset of the
+	// ingests/excises after the flushed prefix may survive.
+	noWAL bool
 }
 
 func newTracker(init *model.State, fmv int) *Tracker {
@@ -179,6 +186,33 @@ func (t *Tracker) matchRender(canon string, b bounds, render func(st *model.Stat
 			units[q].apply(st)
 			if q >= b.ing && lost > 0 && ((render == nil && dbcheck.CanonFull(st) == canon) || (render != nil && render(st) == canon)) {
 				return Verdict{OK: true, Prefix: p, Q: q, Mixed: true, State: st, LostBatch: lost}
+			}
+		}
+	}
+	// C. without a WAL: batch prefix P plus any subset of the later ingests/excises
+	if t.noWAL {
+		for p := b.d; p <= b.issued; p++ {
+			var later []int
+			for q := p + 1; q <= b.issued; q++ {
+				if units[q].kind != "batch" {
+					later = append(later, q)
+				}
+			}
+			if len(later) == 0 || len(later) > 10 {
+				continue
+			}
+			for mask := 1; mask < 1<<len(later); mask++ {
+				st := units[p].state.Clone()
+				last := p
+				for i, q := range later {
+					if mask&(1<<i) != 0 {
+						units[q].apply(st)
+						last = q
+					}
+				}
+				if (render == nil && dbcheck.CanonFull(st) == canon) || (render != nil && render(st) == canon) {
+					return Verdict{OK: true, Prefix: p, Q: last, Mixed: true, State: st, LostBatch: last - p - 1}
+				}
 			}
 		}
 	}
@@ -545,6 +579,7 @@ func RunHistory(R *vcommon.Report, o Options, caseIdx int, rng *rand.Rand) *Harn
 		return h
 	}
 	h.T = newTracker(model.NewState(), int(run.DB().FormatMajorVersion()))
+	h.T.noWAL = run.Cfg.DisableWAL
 	run.Hook = h.T
 	// explicit crash points right after each acknowledged unit and crash/restart
 	run.Extra = append(run.Extra, dbcheck.ExtraStep{Weight: 6, F: func(r *dbcheck.Run) {
@@ -612,6 +647,7 @@ func (h *Harness) crashRestart() {
 		return
 	}
 	h.T = newTracker(v.State, int(r.DB().FormatMajorVersion()))
+	h.T.noWAL = r.Cfg.DisableWAL
 	r.Hook = h.T
 	if h.versionOracle {
 		h.finishVersions()
